@@ -385,7 +385,12 @@ let model_breaks (abandon : int) (live : int) : bool =
   let ops = List.init total (fun i -> TOp (OpAlloc (n_of_int (i + 1), n_of_int (i + 1)), N0))
             @ List.init abandon (fun i -> TOp (OpOrphan (n_of_int (i + 1)), N0)) in
   let (t, _) = th_run th_new ops in
-  orphaner_tick_breaks t (n_of_hex "77359400")   (* 2 s *)
+  let now = n_of_hex "77359400" in   (* 2 s *)
+  (* the declarative reading (C02_tick_char): more than 1024 ids orphaned for over 1 s; cross-checked
+     with the tick function as coded *)
+  let by_ids = List.length (old_ids t now) > 1024 in
+  if by_ids <> orphaner_tick_breaks t now then failwith "old_ids and orphaner_tick_breaks disagree";
+  by_ids
 
 let verdict_threshold case impl =
   match impl with
